@@ -46,7 +46,7 @@ def plan(tier, seed):
             for ci in range(len(COORDS)):
                 for fl in range(len(FLAVOURS)):
                     scs.append(dict(n=n, scheme=si, coords=ci, flavour=fl))
-    return dict(scenarios=scs, exhaustive=(tier == 'quick'), chunk=2, caps=[] if tier == 'quick' else [],
+    return dict(scenarios=scs, exhaustive=(tier == 'quick'), chunk=2, caps=[] if tier == 'quick' else ['n=5: bond sets of <= 3 pairs plus the complete graph only (n <= 4 is exhaustive)'],
                 menus=dict(n_atoms=list(range(1, N + 1)), id_schemes=[x[0] for x in id_schemes(3)], coords=[c[0] for c in COORDS], flavours=FLAVOURS,
                            bond_sets='every subset of the pairs for n<=4; for n=5 every subset of <=3 pairs plus the full set', directions=['forward', 'reversed', 'alternating'],
                            bond_order=['document', 'reversed'], routes=['load_cml(path)', 'load_cml(file)', 'Atoms.load(path)', "Atoms.load(file, 'cml')"]),
